@@ -75,6 +75,7 @@ type nondetVar struct {
 }
 
 type Engine struct {
+	discardUnknown bool // protojson.UnmarshalOptions.DiscardUnknown of the Unmarshal call being modelled
 	prog   *ssa.Program
 	solver *Solver
 	cfg    Config
